@@ -48,7 +48,7 @@ def specCheck (prop : String) (op res : List String) : String :=
     -- every leaf function reachable with attacker-controlled text (header values, paths): never a panic
     if ["pct_dec", "pct_enc", "grpc_extract", "connect_extract", "grpc_enc", "connect_enc", "path_unescape", "path_escape", "tmpl_parse", "env_dec", "env_enc", "grpc_dec", "parse_int64", "format_int", "route"].contains op then
       verdict (res != ["panic"]) "panic in a function that processes client- or backend-controlled text"
-    else if ["rest_in", "rest_http", "rest_out", "rest_out_cut", "rest_rt", "schema_req", "schema_ext", "schema_rest_grpc", "config", "config_err"].contains op then
+    else if ["rest_in", "rest_http", "rest_out", "rest_out_cut", "rest_rt", "schema_req", "schema_ext", "schema_rev", "schema_rest_grpc", "config", "config_err"].contains op then
       -- whole requests (and configurations) with hostile paths, query keys and bodies: never a panic
       let r := " ".intercalate res
       verdict ((r.splitOn "panic").length == 1 && (r.splitOn "PANIC").length == 1) "panic while serving a REST request or building a configuration"
@@ -171,6 +171,9 @@ def specCheck (prop : String) (op res : List String) : String :=
   | "C20", ["schema_ext", _] =>
     verdict (" ".intercalate res == "status=200 req-ext=true resp-ext=true")
       "an extension field of a schema that exists only as descriptors was lost (or the RPC failed): dynamic messages must honour the schema's own resolver"
+  | "C20", ["schema_rev", _] =>
+    verdict (" ".intercalate res == "status=200 title=true any=true")
+      "a message type that only the loaded revision of a linked-in schema defines was not resolved from the loaded schema (Any lost or RPC failed): behaviour depends on what else is linked in"
   | "C20", ["schema_req", _] =>
     let r := " ".intercalate res
     if r.startsWith "DIFF" then "fail the same request has different outcomes depending on how the schema was loaded: " ++ (r.take 300).toString
@@ -197,6 +200,10 @@ def specCheck (prop : String) (op res : List String) : String :=
       | _ => "fail unparsable result"
     else if op == "e2e" || op == "e2e_fresh" then specE2E "C01" h res
     else "nospec"
+  | "C06", ["rest_http", h] =>
+    -- the whole stack (`ServeHTTP`, `net/url`, `resolveMethod`): the request is dispatched iff its raw path
+    -- matches the template, with the captures percent-decoded once
+    verdict (runRestIn h == " ".intercalate res) "a REST request was not routed by its raw path / its variables are not the template's captures decoded once"
   | "C07", [op, h] =>
     if op == "rest_out" then
       verdict (runRestOut h == " ".intercalate res) "an RPC sent to a REST-only service did not reach the backend as the request its rule prescribes, exactly once (or was dispatched although it does not fit the rule)"
